@@ -430,9 +430,8 @@ class HttpParser:
 
         body_part, rest = rest[:size], rest[size:]
         if len(rest) < 2:
-            self.errno = INVALID_CHUNK
-            self.errstr = 'chunk missing terminator [%s]' % data
-            return -1
+            # the CRLF that ends the chunk data has not arrived yet
+            return None
 
         # maybe decompress
         if self.__decompress_obj is not None:
@@ -456,6 +455,10 @@ class HttpParser:
             raise InvalidChunkSize(chunk_size)
 
         if chunk_size == 0:
+            # the last chunk is followed by optional trailer fields and a
+            # blank line: the message ends there, not at the size line
+            if rest_chunk[:2] != b'\r\n' and rest_chunk.find(b'\r\n\r\n') < 0:
+                return None, None
             self._parse_trailers(rest_chunk)
             return 0, None
         return chunk_size, rest_chunk
